@@ -147,7 +147,7 @@ class Unit:
             elif cmd == 'lowered':
                 where = self.post
             elif cmd == 'autostub':
-                self.autostub = True
+                self.autostub = rest[0] if rest else 'unreachable'
             elif cmd == 'structs':
                 self.pre0 = self.pre
                 self.pre = []
@@ -268,8 +268,18 @@ class Unit:
                 if sig is None:
                     continue
                 ret, ps = sig
-                out.append('%s %s(%s) { __CPROVER_assert(0, "unreachable stub %s called"); __CPROVER_assume(0); }' % (
-                    ret, cal, ', '.join('%s a%d' % (p_, i_) for i_, p_ in enumerate(ps)) or 'void', cal))
+                plist = ', '.join('%s a%d' % (p_, i_) for i_, p_ in enumerate(ps)) or 'void'
+                if self.autostub == 'havoc':
+                    # the callee is outside this obligation: it returns an arbitrary value and changes nothing the caller can see
+                    if '__ctor' in cal and ps:
+                        body = 'return a0;'      # a constructor returns the object it was given; its fields stay arbitrary
+                    elif ret.strip() == 'void':
+                        body = ''
+                    else:
+                        body = '%s r_; return r_;' % ret
+                    out.append('%s %s(%s) { %s }' % (ret, cal, plist, body))
+                else:
+                    out.append('%s %s(%s) { __CPROVER_assert(0, "unreachable stub %s called"); __CPROVER_assume(0); }' % (ret, cal, plist, cal))
                 info['autostubs'].append(cal)
         out.append('/* ---- lowered functions (real bodies, see #line) ---- */')
         for r in lowered:
